@@ -67,7 +67,7 @@ func (e *kvElection) checkKeyAndReelect(ctx context.Context) {
 		return
 	}
 
-	verifYield("check.start")
+	e.verifYield("check.start")
 	entry, err := e.kv.Get(e.key)
 	if err != nil {
 		// Key doesn't exist - trigger re-election
@@ -81,7 +81,7 @@ func (e *kvElection) checkKeyAndReelect(ctx context.Context) {
 		return
 	}
 
-	verifYield("check.read")
+	e.verifYield("check.read")
 	if entry == nil || len(entry.Value()) == 0 {
 		// Key is empty - trigger re-election
 		log := e.getLogger()
@@ -156,7 +156,7 @@ func (e *kvElection) handleWatchEvent(entry Entry) {
 	newLeaderID := payload.ID
 
 	// If we're the leader, check if we're still the leader
-	verifYield("watch.event")
+	e.verifYield("watch.event")
 	if e.IsLeader() {
 		// If the new leader ID is different, we've been taken over
 		if newLeaderID != e.cfg.InstanceID {
